@@ -17,6 +17,7 @@ Template directives (each at the start of a line):
   //@ nopub                   do not add `pub` (trait impl methods)
   //@ spec                    following lines (until next //@ line) are requires/ensures/decreases text
   //@ loop <k> [iter <id>]    following lines: invariant/decreases text for the k-th loop (1-based)
+  //@ closure <k>             following lines: `-> (name: T) ensures ...` for the k-th closure of the body
   //@ before <source text>    following lines: ghost text inserted before that token sequence
   //@ after <source text>     ... after it
   //@ after-stmt <source text> ... after the ';' ending the statement that contains it
@@ -157,6 +158,8 @@ class Emitter:
                     parts = rest.split()
                     k = int(parts[0]); it = parts[2] if len(parts) >= 3 and parts[1] == "iter" else None
                     opts["loops"][k] = {"iter": it, "text": []}; cur = opts["loops"][k]["text"]
+                elif key == "closure":
+                    opts.setdefault("closures", {})[int(rest)] = []; cur = opts["closures"][int(rest)]
                 elif re.match(r"(before|after|after-stmt)(\[\d+\])?$", key):
                     mm = re.match(r"(before|after|after-stmt)(\[(\d+)\])?$", key)
                     a = {"where": mm.group(1), "anchor": rest, "text": [], "nth": int(mm.group(3)) if mm.group(3) else None}
@@ -328,6 +331,40 @@ class Emitter:
             txt = "\n".join(L["text"])
             edits.append((toks[b].start, toks[b].start, "\n" + G_OPEN + "\n" + txt + "\n" + G_CLOSE + "\n", "ghost:loop%d" % n))
             rec.clauses.append(("loop%d" % n, txt))
+
+        # ---- closures: ghost header (return name + ensures); an expression body is wrapped in
+        # ghost braces (stripped again by the faithfulness check)
+        if opts.get("closures"):
+            cl = []
+            k = body_lo
+            while k < end:
+                if toks[k].text == "|" and toks[k - 1].text in ("(", ",", "=", "move", "{", ";"):
+                    q = k + 1
+                    while toks[q].text != "|":
+                        if toks[q].kind == "punct" and toks[q].text in ("(", "[", "{"):
+                            q = match[q]
+                        q += 1
+                    cl.append((k, q)); k = q + 1; continue
+                k += 1
+            for n, lines in opts["closures"].items():
+                if n < 1 or n > len(cl):
+                    raise EmitError("lost anchor: closure %d of %s (found %d)" % (n, rec.qname, len(cl)))
+                k, q = cl[n - 1]
+                b = q + 1
+                txt = "\n".join(lines)
+                if toks[b].text == "{":
+                    edits.append((toks[b].start, toks[b].start, G_OPEN + " " + txt + " " + G_CLOSE, "ghost:closure"))
+                else:
+                    e = b
+                    while e < end:
+                        if toks[e].kind == "punct" and toks[e].text in ("(", "[", "{"):
+                            e = match[e] + 1; continue
+                        if toks[e].text in (",", ")", "]", "}", ";"):
+                            break
+                        e += 1
+                    edits.append((toks[b].start, toks[b].start, G_OPEN + " " + txt + " { " + G_CLOSE, "ghost:closure"))
+                    edits.append((toks[e - 1].end, toks[e - 1].end, G_OPEN + " } " + G_CLOSE, "ghost:closure"))
+                rec.clauses.append(("closure%d" % n, txt))
 
         # ---- anchors
         for a in opts["anchors"]:
